@@ -199,6 +199,22 @@ int main()
 #undef A
       }
       else if (op == "linkages") {
+         // "distinct": as VALUES too.  Every pair out of { C, C++, and linkages a client may well have: spellings that extend or
+         // start one of the two, the empty one } is compared with == and != in both argument orders; two linkages are equal exactly
+         // when they are spelled the same, and a built-in type's linkage is the C++ one and no other.
+         {
+            std::vector<const Linkage*> ls { &lex.c_linkage(), &lex.cxx_linkage(), &lex.get_linkage(u8"C"), &lex.get_linkage(u8"C++") };
+            for (auto w : { u8"C#", u8"C++/CLI", u8"Cobol", u8"", u8"c", u8"C+", u8"C++ ", u8"Fortran" }) ls.push_back(&lex.get_linkage(w));
+            ls.push_back(&lex.int_type().linkage());
+            ls.push_back(&impl::cxx_transfer().linkage());
+            for (auto a : ls)
+               for (auto b : ls) {
+                  const bool same = a->language().what().characters() == b->language().what().characters();
+                  if ((*a == *b) != same or (*a != *b) == same)
+                     std::printf("linkage-values-disagree %d `%s` %s `%s`\n", i, hex(a->language().what().characters()).c_str(),
+                                 (*a == *b) ? "==" : "!=", hex(b->language().what().characters()).c_str());
+               }
+         }
 #define A(acc) linkage_line(i, #acc, lex.acc());
          LINKAGE_ACCESSORS(A)
 #undef A
